@@ -65,7 +65,7 @@ MODELS: Dict[str, Dict[str, Any]] = {
     "graphcol-4": dict(fam="graph_coloring", dt=5),
     "mines-4x3-11": dict(fam="minesweeper", dt=4),
     "mines-3x3-2": dict(fam="minesweeper", quick=False, dt=4),
-    "rubik-2-T1": dict(fam="rubiks_cube", dt=3),
+    "rubik-2-T1": dict(fam="rubiks_cube", ctor="RubiksCube(G.rubiks_cube.ScramblingGenerator(2, 3), time_limit=1)", dt=3),
     "rubik-3-T2": dict(fam="rubiks_cube", quick=False, dt=4),
     "slide-3-sparse-T3": dict(fam="sliding_tile_puzzle", dq=4, dt=6),
     "sudoku-near": dict(fam="sudoku", dt=4),
